@@ -1,0 +1,58 @@
+//go:build verif
+
+// Verification hooks (build tag "verif"): setters for the two pieces of
+// neighbour state that only the wall clock / the forwarder would change, and
+// read-only views of the routing daemon's tables.
+
+package table
+
+import (
+	"time"
+
+	enc "github.com/named-data/ndnd/std/encoding"
+)
+
+// VerifSetLastSeen overrides the time the neighbour was last heard from.
+func VerifSetLastSeen(ns *NeighborState, t time.Time) { ns.lastSeen = t }
+
+// VerifFaceId returns the face currently associated with the neighbour.
+func VerifFaceId(ns *NeighborState) uint64 { return ns.faceId }
+
+// VerifFibView returns a copy of the routes the daemon believes it holds registered: name -> face -> cost.
+func VerifFibView(fib *Fib) map[string]map[uint64]uint64 {
+	out := make(map[string]map[uint64]uint64)
+	for h, entries := range fib.prefixes {
+		name := fib.names[h]
+		m := make(map[uint64]uint64)
+		for _, e := range entries {
+			m[e.FaceId] = e.Cost
+		}
+		out[name.String()] = m
+	}
+	return out
+}
+
+// VerifRibView describes one RIB entry.
+type VerifRibView struct {
+	Name     enc.Name
+	NextHop1 enc.Name
+	NextHop2 enc.Name
+	Lowest1  uint64
+	Lowest2  uint64
+}
+
+// VerifRibEntries returns every RIB entry (including unreachable ones that have not been pruned).
+func VerifRibEntries(r *Rib) []VerifRibView {
+	out := make([]VerifRibView, 0, len(r.entries))
+	for _, e := range r.entries {
+		out = append(out, VerifRibView{Name: e.name, NextHop1: r.neighbors[e.nextHop1], NextHop2: r.neighbors[e.nextHop2], Lowest1: e.lowest1, Lowest2: e.lowest2})
+	}
+	return out
+}
+
+// VerifRepoSize returns the number of packets in the prefix table's publication store.
+func VerifRepoSize(pt *PrefixTable) int {
+	pt.repoMutex.RLock()
+	defer pt.repoMutex.RUnlock()
+	return len(pt.repo)
+}
